@@ -861,7 +861,7 @@ func c06SchedProgs(r *emit.Rng) [][]c06SOp {
 func c06Sched(c *cli.Ctx, r *emit.Rng) error {
 	w := emit.NewWriter(c.Out, "C06", "sched")
 	schedules, programs, exhaustive, withFlusher, withExpiry := 0, 0, 0, 0, 0
-	budget := 1500 * c.Scale
+	budget := 2400 * c.Scale
 	for schedules < budget {
 		progs := c06SchedProgs(r)
 		o := c06Opts{objs: c06Objs(r)}
